@@ -43,112 +43,54 @@ func c19Identities(p *Prog, c *Check) {
 			c.Fail(rule, key, site, shortFn(fn), "returned identities", "the identities returned on success are not the sorter's output: "+fi.T(r.Results[0]).s)
 			continue
 		}
-		acc, _ := b["acc"].Val.(*ssa.Phi)
-		if acc == nil {
+		// the list is accumulated in this function or in a helper whose successful returns hand back its
+		// own accumulator (terms of the helper are translated through the argument substitution)
+		type accSite struct {
+			fi  *FnInfo
+			acc *ssa.Phi
+			up  func(*Term) *Term
+		}
+		var sites []accSite
+		if acc, _ := b["acc"].Val.(*ssa.Phi); acc != nil {
+			sites = append(sites, accSite{fi, acc, func(t *Term) *Term { return t }})
+		} else if ct := b["acc"]; ct.K == TRes && ct.Sub[0].K == TCall && ct.Sub[0].Callee != nil && inModule(ct.Sub[0].Callee) && ct.Sub[0].Callee.Blocks != nil {
+			h := origin(ct.Sub[0].Callee)
+			hfi := p.Info(h)
+			m := map[string]*Term{}
+			for i, prm := range h.Params {
+				if i < len(ct.Sub[0].Sub) {
+					m[prm.Name()] = ct.Sub[0].Sub[i]
+				}
+			}
+			okH := true
+			nres := h.Signature.Results().Len()
+			for _, hr := range returnsOf(h) {
+				if isErrorType(h.Signature.Results().At(nres-1).Type()) && hfi.errIsNil(hr.Results[nres-1], hr, 0) == no {
+					continue
+				}
+				hacc, _ := hr.Results[ct.Idx].(*ssa.Phi)
+				if hacc == nil {
+					okH = false
+					break
+				}
+				sites = append(sites, accSite{hfi, hacc, func(t *Term) *Term { return t.subst(m) }})
+			}
+			if !okH {
+				sites = nil
+			}
+			c.Analysed(shortFn(h))
+		}
+		if len(sites) == 0 {
 			c.Fail(rule, key, site, shortFn(fn), "returned identities", "sorted list is not the loop accumulator")
 			continue
 		}
-		// initial value: literal [makeSlotIdentityPreimage(slot)]
-		var loop *Loop
-		for _, l := range loopsOf(p, fn) {
-			if l.Header == acc.Block() {
-				loop = l
+		okSites := true
+		for _, as := range sites {
+			if !c19Accum(p, c, rule, key, site, fn, as.fi, as.acc, as.up, slot, eon, ptr, fi) {
+				okSites = false
 			}
 		}
-		okInit, okQuery := false, false
-		if loop != nil && loop.Idx != nil && loop.Lo == 0 {
-			for i, e := range acc.Edges {
-				if loop.Blocks[acc.Block().Preds[i]] {
-					continue
-				}
-				if els, ok := sliceLitElems(e); ok && len(els) == 1 && ParsePat("makeSlotIdentityPreimage($s)").Match(fi.T(els[0]), Binds{"s": slot}) {
-					okInit = true
-				}
-			}
-			// loop over the rows of GetTransactionSubmittedEvents(Eon: eon, Index: txPointer)
-			if loop.Bound.K == TLen {
-				var q *ssa.Call
-				loop.Bound.Sub[0].walk(func(t *Term) {
-					if q == nil && t.K == TCall && nameMatches(t.callName(), "GetTransactionSubmittedEvents") {
-						q, _ = t.Val.(*ssa.Call)
-					}
-				})
-				if q != nil {
-					pf := fi.structLitFields(q.Common().Args[len(q.Common().Args)-1])
-					okQuery = pf != nil && pf["Eon"] != nil && pf["Index"] != nil && pf["Eon"].s == eon.s && pf["Index"].s == ptr.s
-				}
-			}
-		}
-		if !okInit {
-			c.Fail(rule, key+":first", site, shortFn(fn), "identity list", "the list does not start as [makeSlotIdentityPreimage(slot)] before the transaction loop")
-			continue
-		}
-		if !okQuery {
-			c.Fail(rule, key+":query", site, shortFn(fn), "transaction query", "transactions are not read with GetTransactionSubmittedEvents(Eon: eon, Index: txPointer) and iterated in order from the first row")
-			continue
-		}
-		// appends inside the loop
-		apps := appendsInto(fi, acc)
-		nApp := 0
-		okAll := true
-		for _, ap := range apps {
-			if !loop.Blocks[ap.Block()] {
-				continue
-			}
-			nApp++
-			vals, ok := appendedValues(ap)
-			ib := Binds{"rows": loop.Bound.Sub[0], "i": loop.Idx}
-			if !ok || len(vals) != 1 || !ParsePat("transactionSubmittedEventToIdentityPreimage($rows[$i])#0").Match(fi.T(vals[0]), ib) {
-				c.Fail(rule, key+":elem", p.siteOf(ap), shortFn(fn), "appended identity", "the appended identity is not derived from the current queue row")
-				okAll = false
-				continue
-			}
-			// gas guard: nearest dominating join (or the block itself) — every path set has gas<=limit or len(acc)<=1
-			j := ap.Block()
-			for j != nil && len(fwdPreds(j)) < 2 && j != loop.Body {
-				j = j.Idom()
-			}
-			sets := fi.pathFactSets(j)
-			for si, set := range sets {
-				gb := Binds{"rows": loop.Bound.Sub[0], "i": loop.Idx}
-				_, a1 := findAtom(set, "($g + $rows[$i].GasLimit) <= _.EncryptedGasLimit", gb)
-				_, a2 := findAtom(set, "len($l) <= 1", gb)
-				good := false
-				why := "a transaction can be appended although the cumulative gas exceeds the limit and a transaction was already taken (or the first transaction is not always taken)"
-				if a1 {
-					// $g is the running sum: phi with init 0 and step = this same sum
-					if gphi, ok := gb["g"].Val.(*ssa.Phi); ok && gphi.Block() == loop.Header {
-						good = true
-						for k, e := range gphi.Edges {
-							et := fi.T(e)
-							if loop.Blocks[gphi.Block().Preds[k]] {
-								if !ParsePat("($g + $rows[$i].GasLimit)").Match(et, copyBinds(gb)) {
-									good = false
-									why = "the gas compared with the limit is not the running sum including the current transaction"
-								}
-							} else if v, isC := intConst(et); !isC || v != 0 {
-								good = false
-								why = "the running gas sum does not start at 0"
-							}
-						}
-					}
-				} else if a2 {
-					good = gb["l"].s == fi.T(acc).s
-					if !good {
-						why = "the 'at least one transaction' exception is not on the identity list itself"
-					}
-				}
-				c.Result(good, rule, fmt.Sprintf("%s:gas/%d", key, si), p.siteOf(ap), shortFn(fn), "append of a transaction identity", why, "gas_running <= EncryptedGasLimit or len(identities) <= 1 on this path")
-				if !good {
-					okAll = false
-				}
-			}
-		}
-		if nApp != 1 {
-			c.Fail(rule, key+":appends", site, shortFn(fn), "transaction loop", fmt.Sprintf("expected exactly one append per queue row in the loop, found %d", nApp))
-			continue
-		}
-		if okAll {
+		if okSites {
 			c.Ok(rule, key, site, shortFn(fn), "returned identities", "sort([slotIdentity] ++ identities of rows from txPointer in order while gas guard holds)")
 		}
 	}
@@ -184,11 +126,12 @@ func c19TxPointer(p *Prog, c *Check) {
 	if fi.T(cnt.Common().Args[2]).s != eon.s {
 		c.Fail(rule, "getTxPointer:count-eon", p.siteOf(cnt), shortFn(fn), "queue length query", "queue length is read for a different eon")
 	}
-	// the condition under which the count is used
+	// the condition under which the count is used: a boolean computed in this function (phi) or
+	// returned by a helper (result of a module call)
 	facts := fi.FactsAt(cnt)
 	var cond *Term
 	for _, a := range facts {
-		if a.Op == "==" && a.R == termTrue && a.L.K == TPhi {
+		if a.Op == "==" && a.R == termTrue && (a.L.K == TPhi || a.L.K == TRes && a.L.Sub[0].K == TCall && a.L.Sub[0].Callee != nil && inModule(a.L.Sub[0].Callee)) {
 			cond = a.L
 		}
 	}
@@ -196,17 +139,16 @@ func c19TxPointer(p *Prog, c *Check) {
 		c.Fail(rule, "getTxPointer:outdated", p.siteOf(cnt), shortFn(fn), "use of the queue length", "the queue length is not used under an 'outdated' flag computed from the age")
 		return
 	}
-	phi := cond.Val.(*ssa.Phi)
 	okPhi := true
 	var kinds []string
-	for i, e := range phi.Edges {
-		pred := phi.Block().Preds[i]
-		pf := append(append([]Atom{}, fi.blockFacts(pred)...), fi.edgeAtoms(pred, phi.Block())...)
-		et := fi.T(e)
-		b := Binds{"max": maxAge}
+	var flag func(ffi *FnInfo, v ssa.Value, pf []Atom, max *Term, depth int)
+	flag = func(ffi *FnInfo, v ssa.Value, pf []Atom, max *Term, depth int) {
+		et := ffi.T(v)
+		b := Binds{"max": max}
 		switch {
 		case et == termFalse || et.s == "false":
 			kinds = append(kinds, "false")
+			return
 		case et.s == "true":
 			if _, ok := findAtom(pf, "GetTxPointer(...)#0.Age.Valid == false", Binds{}); !ok {
 				okPhi = false
@@ -214,6 +156,7 @@ func c19TxPointer(p *Prog, c *Check) {
 			} else {
 				kinds = append(kinds, "true under unknown age")
 			}
+			return
 		case ParsePat("(GetTxPointer(...)#0.Age.Int64 > $max)").Match(et, b):
 			if _, ok := findAtom(pf, "GetTxPointer(...)#0.Age.Valid == true", Binds{}); !ok {
 				okPhi = false
@@ -221,11 +164,53 @@ func c19TxPointer(p *Prog, c *Check) {
 			} else {
 				kinds = append(kinds, "age > max (strict) under known age")
 			}
-		default:
-			okPhi = false
-			kinds = append(kinds, "unrecognised: "+et.s)
+			return
 		}
+		if depth < 3 {
+			if ph, isPhi := v.(*ssa.Phi); isPhi {
+				for i, e := range ph.Edges {
+					pred := ph.Block().Preds[i]
+					epf := append(append([]Atom{}, ffi.blockFacts(pred)...), ffi.edgeAtoms(pred, ph.Block())...)
+					flag(ffi, e, epf, max, depth+1)
+				}
+				return
+			}
+			// the k-th result of a helper: every successful return of the helper
+			if ex, isEx := v.(*ssa.Extract); isEx {
+				if call, isCall := ex.Tuple.(*ssa.Call); isCall {
+					if h := call.Common().StaticCallee(); h != nil && inModule(h) && h.Blocks != nil {
+						h = origin(h)
+						hfi := p.Info(h)
+						var hmax *Term
+						for i, a := range call.Common().Args {
+							if i < len(h.Params) && ffi.T(a).s == max.s {
+								hmax = hfi.T(h.Params[i])
+							}
+						}
+						if hmax != nil {
+							nres := h.Signature.Results().Len()
+							for _, r := range returnsOf(h) {
+								if isErrorType(h.Signature.Results().At(nres-1).Type()) && hfi.errIsNil(r.Results[nres-1], r, 0) == no {
+									continue
+								}
+								flag(hfi, r.Results[ex.Index], hfi.FactsAt(r), hmax, depth+1)
+							}
+							c.Analysed(shortFn(h))
+							return
+						}
+					}
+				}
+			}
+		}
+		okPhi = false
+		kinds = append(kinds, "unrecognised: "+et.s)
 	}
+	if cond.Val == nil {
+		c.Fail(rule, "getTxPointer:outdated", p.siteOf(cnt), shortFn(fn), "use of the queue length", "the 'outdated' flag has no defining value")
+		return
+	}
+	flag(fi, cond.Val, fi.FactsAt(cnt), maxAge, 0)
+	kinds = dedup(kinds)
 	c.Result(okPhi, rule, "getTxPointer:outdated", p.siteOf(cnt), shortFn(fn), "outdated flag", "the pointer is replaced by the queue length under a condition other than (age unknown) or (age > max, strictly): "+strings.Join(kinds, "; "), kinds...)
 	// the value returned on the outdated path is exactly the count
 	okRet := true
@@ -253,13 +238,20 @@ func c19TxPointer(p *Prog, c *Check) {
 		}
 	}
 	c.Result(okRet && nret > 0, rule, "getTxPointer:returns-count", p.siteOf(cnt), shortFn(fn), "pointer returned when outdated", "when the pointer is outdated the function does not return the queue length itself (it is combined with the stale pointer)", "returns GetTransactionSubmittedEventCount#0")
-	// initialisation under ErrNoRows
-	for i, ci := range callsTo(fn, "SetTxPointer") {
-		flds := fi.structLitFields(ci.Common().Args[len(ci.Common().Args)-1])
-		ok := flds != nil && flds["Eon"] != nil && flds["Eon"].s == eon.s && flds["Value"] != nil && flds["Value"].s == "0"
-		c.Result(ok, rule, fmt.Sprintf("getTxPointer:init#%d", i+1), p.siteOf(ci), shortFn(fn), "initialisation of the pointer", "a missing pointer is not initialised to (eon, 0)", "SetTxPointer{eon, 0}")
-		c.Guard(p, rule, fmt.Sprintf("getTxPointer:init-guard#%d", i+1), ci.(*ssa.Call), "SetTxPointer(init)", Binds{}, "GetTxPointer(...)#1 == _")
+	// initialisation under ErrNoRows (in getTxPointer or a helper it calls)
+	ninit := 0
+	for _, f := range p.CG().Reachable([]*ssa.Function{fn}, func(f *ssa.Function) bool { return !inModule(f) || isGeneratedFile(p.fileOf(f)) }) {
+		ffi := p.Info(f)
+		for i, ci := range callsTo(f, "SetTxPointer") {
+			ninit++
+			flds := ffi.structLitFields(ci.Common().Args[len(ci.Common().Args)-1])
+			ok := flds != nil && flds["Eon"] != nil && flds["Value"] != nil && flds["Value"].s == "0" &&
+				p.termLifted(f, flds["Eon"], 0, func(g *ssa.Function, t *Term) bool { return origin(g) == fn && t.s == eon.s })
+			c.Result(ok, rule, fmt.Sprintf("getTxPointer:init#%d", i+1), p.siteOf(ci), shortFn(f), "initialisation of the pointer", "a missing pointer is not initialised to (eon, 0)", "SetTxPointer{eon, 0}")
+			c.Guard(p, rule, fmt.Sprintf("getTxPointer:init-guard#%d", i+1), ci.(*ssa.Call), "SetTxPointer(init)", Binds{}, "GetTxPointer(...)#1 == _")
+		}
 	}
+	c.Floor(rule+".init", ninit, 1)
 }
 
 func c19Advance(p *Prog, c *Check) {
@@ -428,4 +420,119 @@ func c19Det(p *Prog, c *Check) {
 		roots = append(roots, fn)
 	}
 	detScope(p, c, rule, roots, nil)
+}
+
+// c19Accum checks one accumulator: afi/acc are the function and phi that build the list, up
+// translates their terms into those of the root function (rfi), whose slot/eon/ptr parameters and
+// query call the list must be tied to.
+func c19Accum(p *Prog, c *Check, rule, key, site string, root *ssa.Function, afi *FnInfo, acc *ssa.Phi, up func(*Term) *Term, slot, eon, ptr *Term, rfi *FnInfo) bool {
+	fi := afi
+	fn := afi.Fn
+	// initial value: literal [makeSlotIdentityPreimage(slot)]
+	var loop *Loop
+	for _, l := range loopsOf(p, fn) {
+		if l.Header == acc.Block() {
+			loop = l
+		}
+	}
+	okInit, okQuery := false, false
+	if loop != nil && loop.Idx != nil && loop.Lo == 0 {
+		for i, e := range acc.Edges {
+			if loop.Blocks[acc.Block().Preds[i]] {
+				continue
+			}
+			if els, ok := sliceLitElems(e); ok && len(els) == 1 && ParsePat("makeSlotIdentityPreimage($s)").Match(up(fi.T(els[0])), Binds{"s": slot}) {
+				okInit = true
+			}
+		}
+		// loop over the rows of GetTransactionSubmittedEvents(Eon: eon, Index: txPointer)
+		if loop.Bound.K == TLen {
+			var q *ssa.Call
+			up(loop.Bound.Sub[0]).walk(func(t *Term) {
+				if q == nil && t.K == TCall && nameMatches(t.callName(), "GetTransactionSubmittedEvents") {
+					q, _ = t.Val.(*ssa.Call)
+				}
+			})
+			if q != nil {
+				pf := rfi.structLitFields(q.Common().Args[len(q.Common().Args)-1])
+				if q.Parent() != root {
+					pf = nil
+				}
+				okQuery = pf != nil && pf["Eon"] != nil && pf["Index"] != nil && pf["Eon"].s == eon.s && pf["Index"].s == ptr.s
+			}
+		}
+	}
+	if !okInit {
+		c.Fail(rule, key+":first", site, shortFn(fn), "identity list", "the list does not start as [makeSlotIdentityPreimage(slot)] before the transaction loop")
+		return false
+	}
+	if !okQuery {
+		c.Fail(rule, key+":query", site, shortFn(fn), "transaction query", "transactions are not read with GetTransactionSubmittedEvents(Eon: eon, Index: txPointer) and iterated in order from the first row")
+		return false
+	}
+	// appends inside the loop
+	apps := appendsInto(fi, acc)
+	nApp := 0
+	okAll := true
+	for _, ap := range apps {
+		if !loop.Blocks[ap.Block()] {
+			continue
+		}
+		nApp++
+		vals, ok := appendedValues(ap)
+		ib := Binds{"rows": loop.Bound.Sub[0], "i": loop.Idx}
+		if !ok || len(vals) != 1 || !ParsePat("transactionSubmittedEventToIdentityPreimage($rows[$i])#0").Match(fi.T(vals[0]), ib) {
+			c.Fail(rule, key+":elem", p.siteOf(ap), shortFn(fn), "appended identity", "the appended identity is not derived from the current queue row")
+			okAll = false
+			continue
+		}
+		// gas guard: nearest dominating join (or the block itself) — every path set has gas<=limit or len(acc)<=1
+		j := ap.Block()
+		for j != nil && len(fwdPreds(j)) < 2 && j != loop.Body {
+			j = j.Idom()
+		}
+		sets := fi.pathFactSets(j)
+		for si, set := range sets {
+			gb := Binds{"rows": loop.Bound.Sub[0], "i": loop.Idx}
+			_, a1 := findAtom(set, "($g + $rows[$i].GasLimit) <= $lim", gb)
+			if a1 && !ParsePat("_.EncryptedGasLimit").Match(up(gb["lim"]), Binds{}) {
+				a1 = false
+			}
+			_, a2 := findAtom(set, "len($l) <= 1", gb)
+			good := false
+			why := "a transaction can be appended although the cumulative gas exceeds the limit and a transaction was already taken (or the first transaction is not always taken)"
+			if a1 {
+				// $g is the running sum: phi with init 0 and step = this same sum
+				if gphi, ok := gb["g"].Val.(*ssa.Phi); ok && gphi.Block() == loop.Header {
+					good = true
+					for k, e := range gphi.Edges {
+						et := fi.T(e)
+						if loop.Blocks[gphi.Block().Preds[k]] {
+							if !ParsePat("($g + $rows[$i].GasLimit)").Match(et, copyBinds(gb)) {
+								good = false
+								why = "the gas compared with the limit is not the running sum including the current transaction"
+							}
+						} else if v, isC := intConst(et); !isC || v != 0 {
+							good = false
+							why = "the running gas sum does not start at 0"
+						}
+					}
+				}
+			} else if a2 {
+				good = gb["l"].s == fi.T(acc).s
+				if !good {
+					why = "the 'at least one transaction' exception is not on the identity list itself"
+				}
+			}
+			c.Result(good, rule, fmt.Sprintf("%s:gas/%d", key, si), p.siteOf(ap), shortFn(fn), "append of a transaction identity", why, "gas_running <= EncryptedGasLimit or len(identities) <= 1 on this path")
+			if !good {
+				okAll = false
+			}
+		}
+	}
+	if nApp != 1 {
+		c.Fail(rule, key+":appends", site, shortFn(fn), "transaction loop", fmt.Sprintf("expected exactly one append per queue row in the loop, found %d", nApp))
+		return false
+	}
+	return okAll
 }
